@@ -124,7 +124,7 @@ PROPS = {
     },
     'C10': {
         'level': 'proof',
-        'verus': [{'group': 'c10_bgsave'}, {'group': 'c09_load', 'units': ['load_stream_arm', 'load_list_arm', 'load_string_arm', 'load_zset_arm', 'load_set_arm', 'load_hash_arm']}],
+        'verus': [{'group': 'c10_bgsave'}, {'group': 'c09_load', 'units': ['load_stream_arm', 'load_list_arm', 'load_string_arm', 'load_zset_arm', 'load_set_arm', 'load_hash_arm', 'save_ttl_prefix']}],
         # "loadable": what the writer's length/fixed-width encoders emit must be what the reader decodes
         'kani': RDB_TOTAL_KANI + RDB_KANI,
         'explanation': 'corrupted-input clause only: read_length is total on arbitrary bytes (no panic, no read past the data, short read = error); the loader\'s LIST and STREAM record arms neither overflow nor loop for ever whatever counts the file contains. Crash points and save/command interleavings are not decidable by function contracts here',
